@@ -234,6 +234,25 @@ Definition parse_cookie_environ (header : str) : eres :=
     end
   end.
 
+(* ------------------------------------------------------------------ the test client's jar *)
+(* Cookie._from_response_header(...)._to_request_header() *)
+Definition jar_request_header (set_cookie : str) : str :=
+  let first := fst (partition1 SEMI set_cookie) in
+  let kv := partition1 EQ first in
+  strip uni_ws (fst kv) ++ EQ :: strip uni_ws (match snd kv with Some x => x | None => [] end).
+
+(* decoded_key, decoded_value = next(parse_cookie(header).items()): StopIteration when the first piece
+   yields no pair (the model only needs to know whether that happens) *)
+Inductive jres := JOk | JNone | JUnsupported.
+Definition jar_decoded (set_cookie : str) : jres :=
+  match parse_cookie_environ (fst (partition1 SEMI set_cookie)) with
+  | EOk [] => JNone
+  | EOk _ => JOk
+  | EUnicodeError => JNone
+  | _ => JUnsupported
+  end.
+
+
 (* ------------------------------------------------------------------ spec-side predicates *)
 
 (* RFC 6265 cookie-octet: %x21 / %x23-2B / %x2D-3A / %x3C-5B / %x5D-7E *)
